@@ -301,7 +301,11 @@ func visitInstr(fr *frame, instr ssa.Instruction) continuation {
 		fr.env[instr] = makeMap(instr.Type().Underlying().(*types.Map).Key(), reserve)
 
 	case *ssa.Range:
-		fr.env[instr] = rangeIter(fr.i, fr.get(instr.X), instr.X.Type())
+		rx := fr.get(instr.X)
+		if _, isMap := rx.(*omap); isMap {
+			fr.i.path.MapRanges[fr.fn.String()] = true
+		}
+		fr.env[instr] = rangeIter(fr.i, rx, instr.X.Type())
 
 	case *ssa.Next:
 		fr.env[instr] = fr.get(instr.Iter).(iter).next()
